@@ -28,6 +28,7 @@ import (
 
 type provRunner struct {
 	lastEvidence string
+	script       []string // scripted follow-up operations of a directed scenario
 	lastMisb     string
 	t        *Trace
 	w        *World
@@ -924,15 +925,16 @@ func (p *provRunner) doChanOpen(op Op, extra *[]any) error {
 		order = channeltypes.UNORDERED
 	}
 	hops := splitNE(op.s("hops"))
+	ver := strings.ReplaceAll(op.s("ver"), "_", " ")
 	cp := channeltypes.Counterparty{PortId: op.s("cport"), ChannelId: "channel-77"}
 	if op.name == "chaninit" {
 		return w.atomically(func(ctx sdk.Context) error {
-			_, e := w.mod.OnChanOpenInit(ctx, order, hops, op.s("port"), op.s("ch"), cp, op.s("ver"))
+			_, e := w.mod.OnChanOpenInit(ctx, order, hops, op.s("port"), op.s("ch"), cp, ver)
 			return e
 		})
 	}
 	return w.atomically(func(ctx sdk.Context) error {
-		md, e := w.mod.OnChanOpenTry(ctx, order, hops, op.s("port"), op.s("ch"), cp, op.s("ver"))
+		md, e := w.mod.OnChanOpenTry(ctx, order, hops, op.s("port"), op.s("ch"), cp, ver)
 		if e != nil {
 			return e
 		}
